@@ -162,6 +162,10 @@ def main():
                           'note': 'the implementation (or the harness against it) does not build; correspondence cannot be established'}, False)
         finish(1)
 
+    # literals that are new in the current source become likely field values / sizes / payload contents
+    import gen as _gen
+    _gen.DICT[:], _gen.DICT_BYTES[:] = lib.new_literals()
+    cov['new_source_literals'] = {'integers': _gen.DICT[:40], 'strings': [b.decode('latin-1') for b in _gen.DICT_BYTES[:10]]}
     runner = lib.Runner(bins, workdir, chunk_timeout=120 if tier == 'quick' else 600)
     ctx = props.Ctx(prop, tier, random.Random(seed), runner, seed)
     # 2a. source tie by regeneration: the tables and constants this property rests on are re-extracted from the
